@@ -16,7 +16,8 @@ from vkit.gen.g2 import as_model, is_nn, named, nullable, type_str
 
 
 class DocGen:
-    def __init__(self, c, m, incremental=False, allow_faulty_vars=False):
+    def __init__(self, c, m, incremental=False, allow_faulty_vars=False, collide=0):
+        self.collide = collide  # probability (of 256) of picking a response key without the registry
         self.c = c
         self.m = as_model(m)
         self.vars = {}       # name -> {"t": type, "default": lit | None}
@@ -180,11 +181,17 @@ class DocGen:
         sig = (f["name"], _canon_args(args), type_str(f["type"]), tname if self.composite(named(f["type"])) else "")
         alias = None
         key = f["name"]
-        if c.chance(70):
+        if self.collide and c.chance(self.collide):
+            # conflict-seeking mode (C14): a response key from a tiny pool, no legality check
+            alias = c.choose(["k1", "k2", "k1", None])
+            key = alias or f["name"]
+            self.features.add("forced-key")
+            self.registry.setdefault(path, {}).setdefault(key, sig)
+        elif c.chance(70):
             alias = self.fresh("a")
             key = alias
             self.features.add("alias")
-        if not self.try_register(path, key, sig):
+        if not self.collide and not self.try_register(path, key, sig):
             alias = self.fresh("a")
             key = alias
             self.try_register(path, key, sig)
@@ -233,7 +240,8 @@ class DocGen:
         if reusable and c.chance(128):
             name = c.choose(reusable)
             info = self.frag_info[name]
-            if all(self.try_register(path + rel, key, sig, commit=False) for rel, key, sig in info["entries"]):
+            if self.collide or all(self.try_register(path + rel, key, sig, commit=False)
+                                   for rel, key, sig in info["entries"]):
                 for rel, key, sig in info["entries"]:
                     self.try_register(path + rel, key, sig)
                 self.features.add("fragment-reuse")
@@ -311,7 +319,7 @@ def _g1_type(t):
     return {"k": "listT", "t": _g1_type(t[1])}
 
 
-def g_document(c, m, depth=3, operation=None, incremental=False, n_ops=None):
+def g_document(c, m, depth=3, operation=None, incremental=False, n_ops=None, collide=0):
     """{"tree": G1 doc tree, "ops": [(name, kind)], "vars": {op name: {var: {t, default}}}, "features"}"""
     m = as_model(m)
     defs = []
@@ -323,7 +331,7 @@ def g_document(c, m, depth=3, operation=None, incremental=False, n_ops=None):
     counter = 0
     for i in range(n_ops):
         kind = operation or ("mutation" if (m["mutation"] and c.chance(60)) else "query")
-        gen = DocGen(c, m, incremental=incremental)
+        gen = DocGen(c, m, incremental=incremental, collide=collide)
         gen.counter = counter
         root = m[kind]
         sel = gen.g_selset(root, (), depth)
